@@ -1,14 +1,11 @@
 SPECIFICATION Spec
-CONSTANT MaxGiven = 7
-CONSTANT AllInvalid = FALSE
+CONSTANT MaxGiven = 8
+CONSTANT AllInvalid = TRUE
 INVARIANT TypeOK
 INVARIANT Total
 INVARIANT GivenReaches
 INVARIANT DefaultsKept
-INVARIANT Independent
 INVARIANT InvalidRefused
-INVARIANT RejectMonotone
-INVARIANT UndecidedSticks
 INVARIANT HypConsistent
 INVARIANT Export
 CHECK_DEADLOCK FALSE
